@@ -24,7 +24,7 @@ RULE = ("E1: all sequences up to length L over a frame alphabet (CSM plain / ele
         "length field 0,12,13,268,269, response with unknown token, Ping, Pong, Release, Abort, Empty, unknown signalling code, "
         "oversized frame, TKL 9, three kinds of unparsable options) with and without a leading CSM, each fed under every chunking "
         "of a family (all compositions for streams <= 12 bytes; else whole, bytewise, fixed sizes, every single cut, strided pairs "
-        "of cuts); client role with pending requests; serialisation at the 13/269/65805 boundaries; "
+        "of cuts); client role with pending requests (also with a peer that has stopped reading); serialisation at the 13/269/65805 boundaries; frames of 65 kB - 1 MB cut inside their header; "
         "states = distinct (stream, outcome) pairs")
 ASSUMPTIONS = [
     "after transport.close() nothing more is delivered (what asyncio does)",
@@ -49,10 +49,13 @@ class FakeTransport:
             return
         self.written.append(bytes(data))
 
+    stuck = False      # True: the peer has stopped reading - the write buffer never drains, so asyncio never gets to connection_lost
+
     def close(self):
         if not self.closed:
             self.closed = True
-            self.loop.call_soon(self.conn.connection_lost, None)
+            if not self.stuck:
+                self.loop.call_soon(self.conn.connection_lost, None)
 
     def get_extra_info(self, name, default=None):
         if name == "sockname":
@@ -376,9 +379,13 @@ def bad_frame(names):
 
 def client_role(res):
     """Pending client requests fail with a network error on Release/Abort; matching responses are delivered."""
-    for ender, with_csm, displaced in itertools.product(("release", "abort", "eof-close", "release-elective", "abort-elective"), (True, False), (False, True)):
+    for ender, with_csm, displaced, stuck in itertools.product(("release", "abort", "eof-close", "release-elective", "abort-elective"), (True, False), (False, True),
+                                                               (False, True)):
+        if stuck and ender == "eof-close":
+            continue
         if True:
             h = Harness(False)
+            h.tr.stuck = stuck      # (the peer sends its Release / Abort and neither reads nor closes: the requests fail on the message itself)
             try:
                 F = frames_alphabet()
                 m = Message(code=GET, uri_path=["x"])
@@ -389,7 +396,7 @@ def client_role(res):
                 r2 = h.ctx.request(m2, handle_blockwise=False)
                 h.loop.settle()
                 frames, _ = rc.split_tcp(b"".join(h.tr.written))
-                case = {"client": [ender, with_csm, displaced]}
+                case = {"client": [ender, with_csm, displaced, stuck]}
                 if displaced:
                     # a second connection to the same host took this one's place in the pool (two first requests raced);
                     # the displaced connection is still in use and its end must reach its requests all the same
@@ -416,9 +423,9 @@ def client_role(res):
                 if not ok1 or not ok2:
                     res.violate(Violation("pending-requests-on-connection-end", "delivered response / NetworkError for the rest",
                                           [repr(r1.response), repr(r2.response)], "transports/tcp.py:_dispatch_error", case,
-                                          key=ender + ("-displaced" if displaced else "")))
-                res.outcomes.add(core.digest(("client", ender, with_csm, displaced, ok1, ok2)))
-                res.signatures.add(core.digest(("client", ender, with_csm, displaced)))
+                                          key=ender + ("-displaced" if displaced else "") + ("-stuck" if stuck else "")))
+                res.outcomes.add(core.digest(("client", ender, with_csm, displaced, stuck, ok1, ok2)))
+                res.signatures.add(core.digest(("client", ender, with_csm, displaced, stuck)))
             finally:
                 h.dispose()
 
@@ -462,6 +469,37 @@ def serialisation(res):
     res.outcomes.add("ser")
 
 
+def big_frames(res):
+    """Frames that need the four-byte extended length (bodies of 70 kB to 1 MB, all within the local maximum of 1 MiB), cut at
+    every position inside their header: where the cut falls makes no difference - the request is dispatched, nothing is aborted."""
+    F = frames_alphabet()
+    for n in (65805 + 1, 70000, 140000, 1000000):
+        req = rc.encode_tcp(1, b"\x42", [(11, b"r")], b"B" * n)
+        stream = F["csm"] + req
+        L0 = len(F["csm"])
+        for cuts in [[L0 + k] for k in range(1, 9)] + [[L0 + 1, L0 + 2, L0 + 3, L0 + 4, L0 + 5, L0 + 6], [L0 + 2, L0 + 4], [L0 + 3, L0 + 5, len(stream) - 1]]:
+            h = Harness(True, maxsize=1024 * 1024)
+            try:
+                chunks, prev = [], 0
+                for c in cuts + [len(stream)]:
+                    chunks.append(stream[prev:c])
+                    prev = c
+                h.feed(chunks)
+                disp, writes, rest, closed, errors = h.outcome()
+                res.evaluations += 1
+                res.traces += 1
+                reqs = [d for d in disp if d[0] == "process_request"]
+                aborts = [w_ for w_ in writes if w_[0] == ABORT]
+                if len(reqs) != 1 or aborts or closed or len(reqs[0][4]) != n:
+                    res.violate(Violation("frame-processing", "one request of %d payload bytes dispatched, no Abort" % n,
+                                          {"dispatched": len(reqs), "aborts": len(aborts), "closed": bool(closed)}, "transports/tcp.py:data_received",
+                                          {"big_frame": n, "cuts": [c - L0 for c in cuts]}, key="big-frame"))
+                res.signatures.add(core.digest(("bigframe", n, tuple(cuts))))
+                res.outcomes.add(core.digest(("bigframe", len(reqs), len(aborts))))
+            finally:
+                h.dispose()
+
+
 def size_boundary(res, tier):
     """Every frame size around the local limit, for every token length: dispatched iff the whole frame fits."""
     F = frames_alphabet()
@@ -485,6 +523,7 @@ def job(arg):
         client_role(res)
         serialisation(res)
         size_boundary(res, tier)
+        big_frames(res)
     return res
 
 
@@ -523,6 +562,8 @@ def replay(case, scenario, seed):
                 total, tkl = nm[2:].split("-")
                 F[nm] = sized_frame(int(total), int(tkl))
         run_sequence(res, tuple(case["frames"]), F, "quick")
+    elif "big_frame" in case:
+        big_frames(res)
     elif "client" in case:
         client_role(res)
     else:
